@@ -85,6 +85,24 @@ Definition mask_row (g : group) (mask : Z) : list Z :=
   let vm := mask_of nm (map fst marked) in
   [mask; defined; vm; vm; defined; vm; -1; defined; vm; -1; defined; mask_of nm gen; mask_of nm gen; defined; -1; -1].
 
+(* cglue_impl_group!(T, G, { listed }): TraitGroupImpl::parse turns the listed traits into TraitInfo, sorts them, and
+   enable_opt_vtbls emits one `.enable_<trait>()` call per element: the vtables filled for T are exactly the listed ones.
+   Row per subset (the traits listed in REVERSE input order), in the encoding of harness/gen (grp, id 204):
+   [mask; enabled by fill_table; number of enable calls; the same two for the Fwd filler; traits bound in the where clause; foreign enable calls] *)
+Definition impl_enabled (listed : list tinfo) : list tinfo := sort_ti listed.
+Definition impl_row (g : group) (mask : Z) : list Z :=
+  let nm := length (g_mand g) in
+  let listed := rev (filter (in_mask nm mask) (g_opt g)) in
+  let en := impl_enabled listed in
+  [mask; mask_of nm en; nz (length en); mask_of nm en; nz (length en); mask_of nm en; 0].
+
+(* an aliased instantiation of a generic trait is written `Get<u8>=GetU8`; the alias is the trait's identity (TraitInfo::name_ident) *)
+Fixpoint alias_of (n : ident) : ident :=
+  match n with
+  | [] => []
+  | c :: r => if existsb (Z.eqb 61) r then alias_of r else if c =? 61 then r else c :: r
+  end.
+
 Definition tolower (c : Z) : Z := if (65 <=? c) && (c <=? 90) then c + 32 else c.
 
 Definition run_group (params : list Z) (rows : list (list Z)) : list (list Z) :=
@@ -92,10 +110,21 @@ Definition run_group (params : list Z) (rows : list (list Z)) : list (list Z) :=
   | nm :: _ =>
       let nmand := zn nm in
       let all := combine (seq 0 (length rows)) rows in
-      let tis := map (fun p : nat * list Z => mkti (fst p) (snd p)) all in
+      let tis := map (fun p : nat * list Z => mkti (fst p) (alias_of (snd p))) all in
       let g := mkg (firstn nmand tis) (skipn nmand tis) in
       let nopt := length (g_opt g) in
       (1 :: base_fields g) :: (1 :: container_fields g) ::
       map (fun m => mask_row g (nz m)) (seq 1 (Nat.pow 2 nopt - 1))
+  | _ => [[-2]]
+  end.
+
+Definition run_group_impl (params : list Z) (rows : list (list Z)) : list (list Z) :=
+  match params with
+  | nm :: _ =>
+      let nmand := zn nm in
+      let all := combine (seq 0 (length rows)) rows in
+      let tis := map (fun p : nat * list Z => mkti (fst p) (alias_of (snd p))) all in
+      let g := mkg (firstn nmand tis) (skipn nmand tis) in
+      map (fun m => impl_row g (nz m)) (seq 0 (Nat.pow 2 (length (g_opt g))))
   | _ => [[-2]]
   end.
